@@ -167,6 +167,14 @@ def edge_arrays(rng):
     # sorted with one repeated value (not distinct): no BITMAP
     out.append([1, 2, 2, 3, 4, 5, 6, 7, 8, 9])
     out.append(list(range(0, 40)) + [39])
+    # the same at every size below the BITMAP element limit: ascending, dense, < 65536, exactly one
+    # value repeated once, at a position that is / is not a multiple of 10 (an estimated distinct
+    # count must not be taken for "no duplicates")
+    for n in (60, 300, 1100, 2500, 4000, 7000, 9998):
+        for k in (rng.randrange(10, n - 10, 10), rng.randrange(10, n - 10, 10) + rng.randint(1, 9)):
+            vs = [3 + 5 * i for i in range(n)]
+            vs[k] = vs[k - 1]
+            out.append(vs)
     # avgDelta around 1000, and around min / 10
     for d in (999, 1000, 1001):
         out.append([i * d for i in range(30)])
